@@ -462,6 +462,53 @@ pub fn run_c18v(a: &Args) {
     println!("mode=c18v cases={} oracle_failures={}", cases.len(), cases.iter().filter(|c| !c.ok).count());
 }
 
+
+/// C07 on the f64 entry points (oracle only): every entry point that takes a text -- eval_str, exmex::parse, FlatEx::parse,
+/// FlatEx::parse_wo_compile, DeepEx::parse -- accepts the same texts; a variable-free text accepted by all evaluates to the
+/// same value through all of them.  Texts: spellings that Rust's own number parser accepts but the expression grammar
+/// does not (exponents, inf, nan, underscores, signs), malformed texts of the C07 kinds, and well-formed controls.
+pub fn run_c07e(a: &Args) {
+    use exmex::prelude::*;
+    use exmex::DeepEx;
+    let mut r = Rng::new(a.seed ^ 0x07e);
+    let mut texts: Vec<String> = ["1e5", "1E5", "2.5e3", ".5e1", "7e0", "1e+5", "1e-5", "2.5E-3", "1e", "e1", "inf", "-inf", "+inf", "infinity", "NaN", "nan", "-nan", "+1", "-1", "+.5", "1_000", "0x10", "1.", ".1", "1.5.", "..", "1..2",
+        "١٢", "1 ", " 1", "1e5+1", "(1e5)", "1e5x", "2e", "0e0", "1e400", "-1e5", "1f64", "1.0f32", "", " ", "()", "1+", "(1", "1)", "1 2", "1 2 *", "* 1 2", "1+*2", "sin", "sin()", "2 sin(1)", "1,2", "max(1,2", "max(1,2))", "max(1))+((2,3)",
+        "1+2*3", "-(2)", "sin(0.5)*2", "max(1, 2)", "2^3^2", "PI", "e", "1.5", "007", "5.", ".5"].iter().map(|s| s.to_string()).collect();
+    for _ in 0..a.n { let m = 1 + r.below(9); let d = r.below(40); let sign = ["", "+", "-"][r.below(3)]; let e = ["e", "E"][r.below(2)];
+        texts.push(format!("{m}{e}{sign}{d}")); texts.push(format!("{m}.{d}{e}{d}")); texts.push(format!("{m}{e}{sign}{d}*2")); texts.push(format!("2+{m}{e}{d}")); }
+    struct C { note: String, ok: bool, onote: String, answer: String }
+    let mut cases: Vec<C> = vec![];
+    for t in &texts {
+        let g = |name: &str, r: Result<Option<f64>, String>| (name.to_string(), r);
+        let val = |f: exmex::ExResult<FlatEx<f64>>| -> Result<Option<f64>, String> { f.map_err(|e| e.to_string()).map(|f| if f.var_names().is_empty() { f.eval(&[]).ok() } else { None }) };
+        let outcomes = vec![
+            g("FlatEx::parse", std::panic::catch_unwind(|| val(FlatEx::<f64>::parse(t))).unwrap_or(Err("PANIC".into()))),
+            g("exmex::parse", std::panic::catch_unwind(|| val(exmex::parse::<f64>(t))).unwrap_or(Err("PANIC".into()))),
+            g("parse_wo_compile", std::panic::catch_unwind(|| val(FlatEx::<f64>::parse_wo_compile(t))).unwrap_or(Err("PANIC".into()))),
+            g("DeepEx::parse", std::panic::catch_unwind(|| DeepEx::<f64>::parse(t).map_err(|e| e.to_string()).map(|d| if d.var_names().is_empty() { d.eval(&[]).ok() } else { None })).unwrap_or(Err("PANIC".into()))),
+        ];
+        let es = std::panic::catch_unwind(|| exmex::eval_str::<f64>(t).map_err(|e| e.to_string())).unwrap_or(Err("PANIC".into()));
+        let accepted: Vec<bool> = outcomes.iter().map(|(_, r)| r.is_ok()).collect();
+        let mut ok = accepted.iter().all(|x| *x == accepted[0]); let mut onote = String::new();
+        if !ok { onote = format!("the entry points disagree on acceptance: {:?}", outcomes.iter().map(|(n, r)| format!("{n}: {}", if r.is_ok() { "accepted" } else { "rejected" })).collect::<Vec<_>>()); }
+        if ok { match (&outcomes[0].1, &es) {
+            (Err(_), Ok(v)) => { ok = false; onote = format!("every parser rejects the text but eval_str evaluates it to {v}"); }
+            (Ok(Some(v)), Ok(w)) => { if v.to_bits() != w.to_bits() && !(v.is_nan() && w.is_nan()) { ok = false; onote = format!("FlatEx::parse evaluates to {v}, eval_str to {w}"); } }
+            (Ok(Some(v)), Err(e)) => { ok = false; onote = format!("FlatEx::parse evaluates to {v}, eval_str fails: {e}"); }
+            _ => () } }
+        if ok { let vals: Vec<f64> = outcomes.iter().filter_map(|(_, r)| r.as_ref().ok().and_then(|o| *o)).collect();
+            if vals.windows(2).any(|w| (w[0] - w[1]).abs() > 1e-9 * (1.0 + w[0].abs()) && !(w[0].is_nan() && w[1].is_nan())) { ok = false; onote = format!("the entry points evaluate the text differently: {vals:?}"); } }
+        cases.push(C { note: format!("{t:?}"), ok, onote, answer: format!("{:?} eval_str={es:?}", outcomes.iter().map(|(n, r)| format!("{n}={r:?}")).collect::<Vec<_>>()) });
+    }
+    std::fs::create_dir_all(&a.out).unwrap();
+    let mut f = std::io::BufWriter::new(std::fs::File::create(format!("{}/meta.json", a.out)).unwrap());
+    writeln!(f, "{{\"shard_size\": 1, \"n_shards\": 0, \"tables\": [[]], \"cases\": [").unwrap();
+    let items: Vec<String> = cases.iter().map(|c| format!("{{\"tb\": 0, \"family\": \"f64-entry-points\", \"note\": {}, \"prog\": {}, \"size\": 2, \"nontrivial\": true, \"oracle_ok\": {}, \"oracle_note\": {}, \"answers\": [[\"outcomes\", {}]]}}",
+        json_str(&c.note), json_str(&format!("all f64 text entry points on {}", c.note)), c.ok, json_str(&c.onote), json_str(&c.answer))).collect();
+    writeln!(f, "{}\n]}}", items.join(",\n")).unwrap();
+    println!("mode=c07e cases={} oracle_failures={}", cases.len(), cases.iter().filter(|c| !c.ok).count());
+}
+
 /// regenerates coq/Gen/Tables.v from the implementation's own operator tables and derivative rule names
 pub fn dump_tables(path: &str) {
     use crate::term::{float_table, val_table, g_table};
